@@ -258,7 +258,7 @@ def synthetic_record():
         else:
             break
     ph, pl = H.limbs_of_array(P)
-    return dict(id=899999, kind="hdc", exc="", warned=False, freshsame=True, shape=[4, 5], calls=1, aq=H.l2(H.alpha_q("0.1")),
+    return dict(id=899999, kind="hdc", exc="", warned=False, freshsame=True, gridok=True, shape=[4, 5], calls=1, aq=H.l2(H.alpha_q("0.1")),
                 limq=H.l2(H.q18(limit)), Ph=ph, Pl=pl, Fh=list(ph), Fl=list(pl), R=R, lastq=H.l2(H.q18(last)),
                 fmq=H.l2(H.q18(last)), cmp=[(1 if v > last else (0 if v == last else -1)) for v in P],
                 fr=[sorted(set(P)).index(v) for v in P])
@@ -294,6 +294,13 @@ def self_test(ctx):
     fr_bad[outs[0]] = max(fr_bad) + 1
     var("DensityOrder", fr=fr_bad)
     var("EqualsFreshModel", freshsame=False)
+    var("GridIsDeclared", gridok=False)
+    # the reference probabilities scaled by 1 + 1e-3: content / tightness / warning judged on them move
+    big = [int((base["Fh"][c] * H.B9 + base["Fl"][c]) * 1.06) for c in range(n)]
+    var("ContentOfCdfDifferences", Fh=[v // H.B9 for v in big], Fl=[v % H.B9 for v in big])
+    small_ = [int((base["Fh"][c] * H.B9 + base["Fl"][c]) * 0.8) for c in range(n)]
+    var("TightOfCdfDifferences", Fh=[v // H.B9 for v in small_], Fl=[v % H.B9 for v in small_])
+    var("WarnIffOfCdfDifferences", Fh=[v // H.B9 for v in small_], Fl=[v % H.B9 for v in small_])
     var("Threshold", lastq=H.l2(base["lastq"][0] * H.B9 + base["lastq"][1] + 1))
     var("FmIsDensity", fmq=H.l2(2 * (base["fmq"][0] * H.B9 + base["fmq"][1])))
     # fm one ulp above the least dense enclosed cell: that cell compares as "below fm"
@@ -342,7 +349,9 @@ def run(ctx):
         "against cell_averaged_joint_pdf), the DNVGL sea state on 0.1/0.1, an i.i.d. model with exact ties at the "
         "threshold, symmetric marginals (Normal, von Mises) on centred grids with non-dyadic cell sizes with alpha placed so that the "
         "cut falls inside a pair of cells whose probabilities coincide while their densities differ (6 / 30 base "
-        "grids x up to 6 alphas, incl. the two grids of the bug report), all-default contours whose default upper limit is negative (RuntimeWarning expected), 14 / ~40 integer-typed "
+        "grids x up to 6 alphas, incl. the two grids of the bug report), all-default contours whose default upper limit is negative (RuntimeWarning expected), limits / cell sizes / alpha as np.float32 / np.float16 scalars (the DNVGL sea state on 350-390 cells per axis at "
+        "alpha 1e-6 .. 1e-5 as in the bug report - one of the three big grids per seed in quick, all in thorough - plus "
+        "5 / 40 random classes), 14 / ~40 integer-typed "
         "grids (limits as python int / np.int64, cell sizes as int, list of ints, int on some axes and float on "
         "others, 2-D and 3-D) judged against the harness's float reference.  Hidden state: 8 (quick) / 40 (thorough) pairs of look-alike models - same structure, "
         "families, fixed parameters, dependence functions as parameter-less closures with different constants - run "
@@ -403,6 +412,11 @@ def run(ctx):
     extra = H.decimal_delta_cases(vc, np.random.default_rng(ctx.seed * 53 + 9), cfgs, ctx.pick(8, 60))
     extra += H.negative_default_limit_cases()[: ctx.pick(1, 2)]
     extra += H.tie_cut_cases(vc, np.random.default_rng(ctx.seed * 61 + 12), ctx.pick(6, 30))
+    # limits / cell sizes / alpha as np.float32 / np.float16 scalars (report grids rotate with the seed in quick)
+    nf = H.narrow_float_cases(vc, np.random.default_rng(ctx.seed * 71 + 16), cfgs, ctx.pick(5, 40), 7)
+    if ctx.quick:
+        nf = [nf[(ctx.seed + j) % 3] for j in range(1)] + nf[3:6] + nf[7:]
+    extra += nf
     extra += H.integer_grid_cases(vc, np.random.default_rng(ctx.seed * 59 + 10), cfgs, ctx.pick(10, 60))
     kept_x = judge(ctx, vc, extra, "decimal cell sizes / ties / negative default limits / integer grids",
                    base_id=150000)
